@@ -23,7 +23,8 @@ VARIANTS = [
     "every status query of the run cut",
     "completed status() before the negotiating connect()",
     "kick conversation with answers still owed",
-    "socket descriptor beyond select()'s range (failing system call)"
+    "socket descriptor beyond select()'s range (failing system call)",
+    "no exception handler: error re-raised by the thread, application reconnects on seeing connection.exception"
 ]
 WALL_CAP = {'quick': 240, 'thorough': 3000}
 EOF_READ_LIMIT = 16
@@ -255,7 +256,13 @@ def scenario_for(seed, index, tier):
     sc['reconnector'] = (index % 5 == 1 and not sc['helper'] and
                          conv['allowed'] is not None and
                          len(conv['allowed']) == 1 and k is not None)
-    if sc['reconnector']:
+    # every seventh such case: no exception handler at all - the error is
+    # re-raised from the networking thread and left in connection.exception
+    # - and the application reconnects as soon as it sees it there
+    sc['bare'] = (index % 7 == 3 and not sc['helper'] and
+                  not sc['reconnector'] and conv['allowed'] is not None and
+                  len(conv['allowed']) == 1 and k is not None)
+    if sc['reconnector'] or sc['bare']:
         sc['server']['conns'].append(
             {'login': [['success']],
              'play': [['ka', 1], ['disconnect', '{"text":"second go"}']]})
@@ -312,7 +319,8 @@ def _execute(scenario, tape, want_world=False):
                 st['helper_gone'] = True
                 return
         conn = Connection('sim.example', 25565, username='crash',
-                          handle_exception=on_exception,
+                          handle_exception=(None if scenario.get('bare')
+                                            else on_exception),
                           handle_exit=lambda: exits.append(w.sim.seq), **kw)
         if scenario.get('helper'):
             w.sim.spawn(helper, 'helper')
@@ -329,6 +337,16 @@ def _execute(scenario, tape, want_world=False):
                     w.sleep(100)
         if scenario.get('reconnector'):
             w.sim.spawn(reconnector, 'user1')
+
+        def watcher():
+            w.wait_until(lambda: conn.exception is not None or
+                         st.get('stop_helper'), budget=False)
+            if conn.exception is not None and not st.get('stop_helper'):
+                errs.append(conn.exception)
+                st['want_reconnect'] = True
+                reconnector()
+        if scenario.get('bare'):
+            w.sim.spawn(watcher, 'user1')
 
         def on_packet(p):
             pkts.append((len(w.net.conns) - 1 - st.get('off', 0), p.id,
@@ -407,7 +425,11 @@ def check(scenario, w, st, res):
     if not st.get('quiet'):
         V.append(('C15/networking-thread-not-terminated', None))
         return
-    if scenario.get('reconnector') and st.get('reconnect') is not None:
+    if scenario.get('bare') and not st['errs'] and \
+            st['conn'].exception is not None:
+        st['errs'].append(st['conn'].exception)
+    if (scenario.get('reconnector') or scenario.get('bare')) and \
+            st.get('reconnect') is not None:
         # another thread reconnected while the failure was being handled:
         # what is judged is that everything terminated (above) and that the
         # reconnecting call itself came back
